@@ -64,7 +64,7 @@ def main():
         "hooks": {"guard": "fidget_verif",
                   "enable": "RUSTFLAGS=\"--cfg fidget_verif\" (set in /verif/harness/.cargo/config.toml [build] rustflags)",
                   "baseline_off_cmd": "cd /repo && cargo test --workspace --no-fail-fast --offline",
-                  "source_commits": ["8b89353", "7b5040e"], "add_only": True},
+                  "source_commits": ["8b89353", "aa5117c"], "add_only": True},
         "engines": [{"name": "coq-model+correspondence", "path": "/verif/check", "serves_properties": sorted(CLAIMS),
                      "kind_free_text": "Coq 8.16 theorems about executable Gallina models of fidget; models tied to /repo by differential execution (extracted OCaml runner vs Rust harness on the same generated cases), by tables regenerated from the Rust source on every run, and by kernel-verified validators run on the implementation's own output"}],
         "checks": checks,
